@@ -21,6 +21,29 @@ def r13a(model: Model, rr: RuleResult):
     report(model, rr, [("colr_to_svg", "map_font_space_to_viewbox"), ("colr_to_svg", "_draw_svg_path"), ("colr_to_svg", "_apply_gradient_ot_paint"),
                        ("colr_to_svg", "_apply_transform"), ("colr_to_svg", "_colr_v1_paint_to_svg"), ("colr_to_svg", "_view_box_and_transform"),
                        ("svg", "_apply_gradient_paint"), ("svg", "_map_gradient_coordinates")], WHY)
+    # the transform branch: a PaintTransform's own matrix applies to its child first, the inherited one after it (A @ B maps by B before A; compose_ltr is left to right)
+    pfi = model.func("colr_to_svg", "_colr_v1_paint_to_svg")
+    from ..dataflow import resolved as _res13
+    pcfg = cfg_of(pfi)
+    for st in walk_body(pfi):
+        tgt = st.target if isinstance(st, ast.AugAssign) else (st.targets[0] if isinstance(st, ast.Assign) and len(st.targets) == 1 else None)
+        if not (isinstance(tgt, ast.Name) and "gettransform()" in norm(_res13(pcfg, pcfg.node_for(st), st.value))):
+            continue
+        inh = tgt.id
+        v = st.value
+        order = None  # (first applied, second applied) as 'own' / 'inherited'
+        if isinstance(st, ast.AugAssign) and isinstance(st.op, ast.MatMult):
+            order = ("own", "inherited")
+        elif isinstance(v, ast.BinOp) and isinstance(v.op, ast.MatMult) and {norm(v.left) == inh, norm(v.right) == inh} == {True, False}:
+            order = ("own", "inherited") if norm(v.left) == inh else ("inherited", "own")
+        elif isinstance(v, ast.Call) and callee_tail(v) == "compose_ltr" and len(v.args) == 1 and isinstance(v.args[0], (ast.Tuple, ast.List)) and len(v.args[0].elts) == 2 \
+                and {norm(x) == inh for x in v.args[0].elts} == {True, False}:
+            order = ("inherited", "own") if norm(v.args[0].elts[0]) == inh else ("own", "inherited")
+        if order == ("own", "inherited"):
+            rr.ok(f"transform branch: the paint's own matrix is applied before the inherited one ({short(st, 70)})")
+        elif order == ("inherited", "own"):
+            rr.bad(pfi, st, f"`{short(st, 90)}` applies the inherited transform BEFORE the PaintTransform's own matrix: nested transforms (and the font-to-viewBox flip at the root) compose in the "
+                   f"reverse order, so any non-commuting pair (translate under scale, rotate under flip) lands elsewhere in the SVG", construct="_colr_v1_paint_to_svg: transform composition order reversed")
     # map_font_space_to_viewbox derives the metrics from the glyph region consistently
     fi = model.func("colr_to_svg", "map_font_space_to_viewbox")
     txt = [norm(st) for st in fi.body]
